@@ -1989,6 +1989,8 @@ class GroupBy:
         result = (
             pd.DataFrame(dict(zip(col_names, value_list)), copy=False)
             .iloc[ilocs]
+            # pandas turns a contiguous run of positions into a slice, i.e. a view of the caller's arrays
+            .copy()
             .set_index(out_index)
         )
         result = self._maybe_squeeze_to_1d(
